@@ -81,7 +81,7 @@ def _pair(fr):
     return [fr.numerator, fr.denominator]
 
 
-SCENARIOS = ["region2", "region3", "mesh2", "mesh3", "twomesh", "field2", "field3", "scalar2", "unmapped", "shared"]
+SCENARIOS = ["region2", "region3", "mesh1", "mesh2", "mesh3", "twomesh", "field2", "field3", "scalar2", "unmapped", "shared"]
 
 
 def random_step(rnd, df, vars_, only_rot=False):
@@ -92,10 +92,15 @@ def random_step(rnd, df, vars_, only_rot=False):
     ip = rnd.random() < 0.5
     r = rnd.random()
     ref = () if rnd.random() < 0.4 else tuple(_pair(_rq(rnd, -20, 20, (1, 2))) for _ in range(nd))
+    if ref and rnd.random() < 0.15:
+        ref = tuple(_pair(Fraction(0)) for _ in range(nd))   # the origin is the most natural reference point of all
     if r < 0.08:
         bads = ["same-axis", "unknown-axis", "float-k", "rot-ref-complex"] + ([] if isfield else ["vector-too-long", "vector-of-strings", "factor-too-long", "factor-string", "ref-too-long",
                                                                                    "vector-complex", "factor-complex", "ref-complex"])
         return {"x": x, "kind": "malformed", "args": {"bad": rnd.choice(bads)}, "inplace": ip}
+    if nd < 2 and not isfield:
+        r = max(r, 0.45)   # one dimension: no plane to turn in
+        only_rot = False
     if isfield or only_rot or r < 0.45:
         a, b = rnd.sample(range(1, nd + 1), 2)
         return {"x": x, "kind": "rotate90", "args": {"a": a, "b": b, "k": rnd.choice([1, 1, 2, 3, -1, -2, -3, 0, 4, 5, -5, 7]), "ref": ref}, "inplace": ip}
